@@ -166,7 +166,11 @@ func run(ck *checks.Check, tier string, seed int64) int {
 			defer wg.Done()
 			cmd := exec.Command(os.Args[0], "worker", ck.ID, "--tier", tier, "--shard", strconv.Itoa(i), "--of", strconv.Itoa(n),
 				"--seed", strconv.FormatInt(seed, 10), "--budget", fmt.Sprintf("%.0f", budget.Seconds()))
-			cmd.Env = append(os.Environ(), "GOMAXPROCS="+envOr("VERIF_WORKER_PROCS", "2"), "GOTRACEBACK=single")
+			procs := "2"
+			if ck.Procs > 0 {
+				procs = strconv.Itoa(ck.Procs)
+			}
+			cmd.Env = append(os.Environ(), "GOMAXPROCS="+envOr("VERIF_WORKER_PROCS", procs), "GOTRACEBACK=single")
 			var out, errb bytes.Buffer
 			cmd.Stdout, cmd.Stderr = &out, &errb
 			if err := cmd.Start(); err != nil {
